@@ -26,6 +26,9 @@ func decodeElementInitValueVector(r *bytes.Reader) ([]wasm.Index, error) {
 	if err != nil {
 		return nil, fmt.Errorf("get size of vector: %w", err)
 	}
+	if uint64(vs) > uint64(r.Len()) {
+		return nil, fmt.Errorf("vector size %d exceeds the remaining %d bytes", vs, r.Len())
+	}
 
 	vec := make([]wasm.Index, vs)
 	for i := range vec {
@@ -46,6 +49,9 @@ func decodeElementConstExprVector(r *bytes.Reader, elemType wasm.RefType, enable
 	vs, _, err := leb128.DecodeUint32(r)
 	if err != nil {
 		return nil, fmt.Errorf("failed to get the size of constexpr vector: %w", err)
+	}
+	if uint64(vs) > uint64(r.Len()) {
+		return nil, fmt.Errorf("vector size %d exceeds the remaining %d bytes", vs, r.Len())
 	}
 	vec := make([]wasm.Index, vs)
 	for i := range vec {
